@@ -119,7 +119,16 @@ fn run_case_inner(tree: &Snap, invocations: &[Vec<String>]) -> Vec<String> {
         let err_text: Vec<u8> = { let mut o = Vec::new(); let mut i = 0; while i < err_text.len() { if err_text[i] == 0x1b && i + 1 < err_text.len() && err_text[i + 1] == b'[' { i += 2; while i < err_text.len() && err_text[i] != b'm' { i += 1; } i += 1; } else { o.push(err_text[i]); i += 1; } } o };
         let failed_patch: String = err_text.split(|&b| b == b'\n')
             .filter_map(|l| { let l = std::str::from_utf8(l).ok()?; let l = l.strip_prefix("Patch ")?; l.strip_suffix(" FAILED").map(|x| x.to_string()) })
-            .next().map(|n| hex(n.as_bytes())).unwrap_or("-".to_string());
+            .next()
+            // (should the wording of that line ever change: the first line that speaks of failing and names a patch of the series)
+            .or_else(|| {
+                let series_names: Vec<String> = match before.get(&b"series".to_vec()) {
+                    Some(Entry::File(_, s)) => String::from_utf8_lossy(s).lines().filter(|l| !l.starts_with('#')).filter_map(|l| l.split_whitespace().next().map(|x| x.to_string())).collect(),
+                    _ => Vec::new() };
+                String::from_utf8_lossy(&err_text).lines().filter(|l| l.to_lowercase().contains("fail"))
+                    .find_map(|l| series_names.iter().find(|n| l.split(|c: char| c.is_whitespace() || c == '"' || c == '\'').any(|t| t.trim_end_matches(|c: char| c == ':' || c == ',' || c == '.') == n.as_str() || t == n.as_str())).cloned())
+            })
+            .map(|n| hex(n.as_bytes())).unwrap_or("-".to_string());
         let exit = match r { Ok(Ok(true)) => 0, Ok(Ok(false)) => 1, Ok(Err(_)) => 1, Err(_) => 101 };
         // which file patches the parallel driver queued for which worker (hook): `thread:patch index:old:new`
         let queues: Vec<String> = crate::verif::queues_report().iter().enumerate().flat_map(|(t, q)| q.iter().map(move |(i, o, n)| {
